@@ -1033,7 +1033,12 @@ def run(ctx):
         'item functions raise subclasses of Exception; a BaseException in a worker (thread dies without task_done) and '
         'results that look like exc_info tuples are outside the model',
         'the ThreadPool object is used for one call (as everywhere in mapproxy); reuse after a forced shutdown is not modelled',
-        'exhaustive instances use pool sizes <= 4 (n <= 4 unreduced; n = 5, 6 with the two documented reductions); '
+        ('exhaustive instances (thorough): n <= 4 x pool sizes 1-4 unreduced; n = 5 x sizes 2-4 and n = 6 x sizes 2-3 with '
+         'the two documented sound reductions (workers start first; result mode explores none/each single/all failing); '
+         if thorough else
+         'exhaustive instances (quick): n <= 4 x pool sizes 1-3 unreduced; n <= 4 x size 4 and n = 5, 6 x size 2 with the '
+         'two documented sound reductions (workers start first; result mode explores none/each single/all failing); ') +
+        'instances with n >= 5 at size >= 4 (thorough) or n >= 5 (quick) use the imap entry only (the entry point only selects the branch); '
         'larger pools / more items are covered by validated random schedules only',
     ]
     return ctx.finish('model_checking',
